@@ -7,9 +7,12 @@ Output: {"traces": [{"id", "d", "ev": [{"op": "build", "o": {...}}, {"op": "call
 No verdicts here: TraceControls.tla decides.  The generated body writes every parameter channel to
 its own Out on a distinct constant bus, so the decoded definition shows which control output the
 body received for which parameter."""
+import io
 import json
 import logging
 import os
+import pathlib
+import tempfile
 import sys
 
 logging.disable(logging.CRITICAL)
@@ -19,6 +22,7 @@ sc3.init('nrt')
 from sc3.base.main import main
 from sc3.synth.synthdef import SynthDef
 from sc3.synth.ugens.inout import Out
+from sc3.synth.spec import ControlSpec
 from harness import scgf_ctl
 
 S = scgf_ctl.SCALE
@@ -133,9 +137,8 @@ def wrap_args(f):
     return ', '.join('%s=%r' % kv for kv in call_args(f).items())
 
 
-class Spec:     # stands for a ControlSpec: SynthDef only reads .default
-    def __init__(self, default):
-        self.default = default
+def Spec(default):     # SynthDef only reads .default; store() serialises the whole spec
+    return ControlSpec(-100000, 100000, default=default)
 
 
 def build(d):
@@ -151,30 +154,61 @@ def build(d):
                                    for a in v['set']} for v in d['variants']}
     o = {'raised': '', 'name': '', 'ctl': [], 'names': [], 'units': [], 'variants': [], 'recv': []}
     sd = None
+    sers = []
     try:
         sd = SynthDef(d['name'], ns['fn1'], **kw)
+    except Exception as e:
+        o['raised'] = describe(e)
+    o['recv'] = router.recv
+    if sd is not None:
+        # the serialisation history of the request, all on this one definition object
+        for k, how in enumerate(d.get('hist') or ['as_bytes']):
+            oo = o if k == 0 else {'raised': '', 'name': '', 'ctl': [], 'names': [], 'units': [], 'variants': []}
+            try:
+                oo.update(decode(serialise(sd, how)))
+            except scgf_ctl.ScgfError:
+                raise
+            except Exception as e:
+                oo['raised'] = describe(e)
+            if k:
+                sers.append({'op': 'ser', 'how': how, 'o': oo})
+        if o['raised']:
+            sd = None
+    return sd, o, sers
+
+
+def describe(e):
+    c = e.__cause__
+    return ('%s: %s' % (type(e).__name__, e))[:160] + ((' <- %s: %s' % (type(c).__name__, c))[:160] if c else '')
+
+
+def serialise(sd, how):
+    if how == 'as_bytes':
         mv = sd.as_bytes()
         raw = bytes(mv)
-        # as_bytes() keeps a memoryview of a dead BytesIO; a later cyclic GC of the SynthDef kills the
-        # interpreter ("deallocated BytesIO object has exported buffers") - drop it after copying.
-        if isinstance(mv, memoryview):
+        if isinstance(mv, memoryview):      # old trees kept a view of a dead BytesIO (crashes a later cyclic GC)
             mv.release()
             sd._bytes = None
-        defs = scgf_ctl.parse(raw)
-        assert len(defs) == 1
-        o.update(scgf_ctl.project(defs[0]))
-        o.pop('consts')
-        for u in o['units']:
-            u.pop('outs')
-    except scgf_ctl.ScgfError:
-        raise
-    except Exception as e:
-        c = e.__cause__
-        o['raised'] = ('%s: %s' % (type(e).__name__, e))[:160] + \
-            ((' <- %s: %s' % (type(c).__name__, c))[:160] if c else '')
-        sd = None
-    o['recv'] = router.recv
-    return sd, o
+        return raw
+    if how == 'write':                      # what store/load/_write_def_file do
+        s = io.BytesIO()
+        SynthDef._write_def_list([sd], s)
+        return s.getvalue()
+    if how == 'store':
+        with tempfile.TemporaryDirectory(prefix='c04store') as tmp:
+            sd.store(dir=tmp)
+            return (pathlib.Path(tmp) / (sd.name + '.scsyndef')).read_bytes()
+    raise AssertionError(how)
+
+
+def decode(raw):
+    defs = scgf_ctl.parse(raw)
+    assert len(defs) == 1
+    oo = scgf_ctl.project(defs[0])
+    oo.pop('consts')
+    for u in oo['units']:
+        u.pop('outs')
+    return oo
 
 
 def pyval(v):
@@ -202,8 +236,8 @@ def main_():
     traces, pending = [], []
     for case in inp['cases']:
         d = case['d']
-        sd, o = build(d)
-        ev = [{'op': 'build', 'o': o}]
+        sd, o, sers = build(d)
+        ev = [{'op': 'build', 'o': o}] + sers
         for c in case.get('calls', []) if sd is not None else []:
             e = {'op': 'call', 'args': c['args'], 'kw': c['kw'], 'cmd': '', 'defname': '', 'pairs': []}
             try:
